@@ -115,4 +115,10 @@ TEXT = {
   "note": "a late write is localised to a window of 10 operations",
   "technique": "TLA+ action property (TLC) on an object heap + trace validation of structural snapshots over the whole object registry",
  },
+ "C08": {
+  "level": "GEDeterminism is a self-composition: two runs consume the same raw stream while the environment picks an arbitrary iteration order of the symbol collection per run; TLC checks Agree for all orders when the design iterates canonically and must find the divergence for raw set-order iteration; real seeded searches (2-4 algorithms x 5 representations x grammars with refined / string fields) are run twice in-process and in fresh interpreters with different PYTHONHASHSEED, allocation padding and import order, and TLC validates that every run evaluates the same sequence of programs and returns the same best.",
+  "ref": "DESIGN.md section 4 C08",
+  "note": "process environments are sampled, not enumerated",
+  "technique": "TLA+ self-composition model checked by TLC + trace validation of merged evaluation sequences from separate processes",
+ },
 }
